@@ -47,10 +47,55 @@ def diamonds(rng, n):
     return out
 
 
+def fanin_batches(rng, n):
+    """several signals, chains of different depth below each, fan-in nodes mixing direct reads with reads through the
+    chains; histories of batches writing 2-3 different signals in every order (multi-source propagation)"""
+    out = []
+    for i in range(n):
+        nsig = rng.choice([2, 2, 3])
+        prog = [("signal", j + 1, ("lit", j)) for j in range(nsig)]
+        x = nsig + 1
+        tips = {}
+        for j in range(nsig):
+            cur = j + 1
+            chain = [cur]
+            for _ in range(rng.randint(0, 3)):
+                if rng.random() < 0.25:
+                    prog.append(("selector", x, rng.choice([0, 2]), ("body", None, [], ("add", ("get", cur), ("lit", rng.randint(0, 1))))))
+                else:
+                    prog.append(("memo", x, ("body", None, [], ("mul", ("lit", rng.choice([1, 2])), ("get", cur)))))
+                cur = x
+                chain.append(x)
+                x += 1
+            tips[j + 1] = chain
+        for _ in range(rng.randint(1, 3)):
+            a, b = rng.sample(range(1, nsig + 1), 2)
+            ea = ("get", rng.choice(tips[a]))
+            eb = ("get", rng.choice(tips[b]))
+            kind = rng.random()
+            body = ("body", None, [], ("add", ea, eb))
+            if kind < 0.6:
+                prog.append(("memo", x, body))
+            elif kind < 0.8:
+                prog.append(("effect", x, body))
+            else:
+                prog.append(("selector", x, 0, body))
+            x += 1
+        for _ in range(rng.randint(2, 4)):
+            ws = rng.sample(range(1, nsig + 1), rng.randint(2, nsig))
+            ss = [("set", w, ("lit", rng.randint(0, 9))) for w in ws]
+            if rng.random() < 0.3:
+                ss.append(("set", ws[0], ("lit", rng.randint(0, 9))))
+            prog.append(("batch", ss))
+        out.append(prog)
+    return out
+
+
 def gen(tier, rng):
-    n_small, n_dia, n_rand = (600, 500, 700) if tier == "quick" else (8000, 6000, 8000)
+    n_small, n_dia, n_rand = (500, 400, 500) if tier == "quick" else (8000, 6000, 8000)
     cases = [("small:%d" % i, p) for i, p in enumerate(c01.small_family(n_small, rng))]
     cases += [("diamond:%d" % i, p) for i, p in enumerate(diamonds(rng, n_dia))]
+    cases += [("fanin-batch:%d" % i, p) for i, p in enumerate(fanin_batches(rng, 400 if tier == "quick" else 5000))]
     cases += [("random:%d" % i, p) for i, p in
               enumerate(reactive_gen.random_programs(rng.randrange(1 << 30), n_rand, FEATS, (3, 8), (2, 6)))]
     return cases
@@ -63,9 +108,10 @@ def nontrivial(prog, steps):
 
 def main(argv):
     return rcheck.run(
-        PID, argv, module=None, theorems=[], gen=gen, oracle=rcheck.glitch_failures, nontrivial=nontrivial,
+        PID, argv, module="C02", theorems=['C02_one_entry_per_scheduled_node', 'C02_schedule_has_no_duplicates', 'C02_runs_only_if_dirty', 'C02_step'], bridge=1500, extra_targets=["theories/Reactive/Bridge.vo"], gen=gen, oracle=rcheck.glitch_failures, nontrivial=nontrivial,
         rule=("effect-write-free programs: the C01 small family, layered diamonds (depth 2-4, fan-in through selectors with "
-              "coarse equality, conditional reads, effects creating inner effects), random programs; histories of writes and "
+              "coarse equality, conditional reads, effects creating inner effects), fan-in graphs under batches that write several "
+              "signals in every order (multi-source propagation), random programs; histories of writes and "
               "batches; non-trivial = some propagation ran >= 3 computations; distinct = distinct program text"),
         assumptions=["programs whose effects do not write signals (as the property states)",
                      "known finding F1 (late subscription) recognised structurally"])
